@@ -75,8 +75,10 @@ def setitem : List String := ["F:to", "W:super().__setitem__"]
 /-- with fix C18-02: no write to `self` -/
 def unitSimplify : List String := ["F:_cancel_mul", "F:Unit"]
 
-/-- `__array_ufunc__` seen from `out=` (array.py:1798-2048): a read-only integer `out` is refused (fix
-    C18-03), then the integer `out` is re-typed;
+/-- `__array_ufunc__` seen from `out=`, with the module-level helper `_float_out_view(out)` inlined (read-only
+    refusal — fix C18-03 —, `astype`, re-labelling, cast copy): since fix C01-04 it is called immediately before
+    each kernel call, AFTER the unit checks (unary path: after `initial=` and the trig conversion; binary path:
+    after the unit rule).  Formerly:
     unary path: kernel, then the unit rule; binary path: coercion, the `power` refusals, the K/R
     refusal, the `==`/`!=` early return (which writes `out`), the dimension refusals, the
     second-operand conversion, the unit rule, the kernel, the dimensionless rescale, the
@@ -85,8 +87,9 @@ def unitSimplify : List String := ["F:_cancel_mul", "F:Unit"]
     `multiply(out_func, mul, out=out_func)` (since fix db741b8; before: `multiply(out, mul, out=out)`,
     a nested `__array_ufunc__` call); the unit label -/
 def arrayUfunc : List String :=
-  ["F:raise:ValueError", "F:astype", "W:out.dtype", "W:copyto(out)",
-   "F:in_units", "W:func(out=out_func)", "F:_apply_power_mapping", "F:_ufunc_registry[]",
+  ["F:to_value", "F:in_units",
+   "F:raise:ValueError", "F:astype", "W:out.dtype", "W:copyto(out)",
+   "W:func(out=out_func)", "F:_apply_power_mapping", "F:_ufunc_registry[]",
    "F:_coerce_iterable_units", "F:_coerce_iterable_units", "F:_get_binary_op_return_class",
    "F:Unit", "F:Unit",
    "F:raise:UnitOperationError", "F:raise:UnitOperationError", "F:raise:UnitOperationError",
@@ -94,7 +97,9 @@ def arrayUfunc : List String :=
    "F:func", "W:out[]", "F:Unit", "W:out.units",
    "F:raise:UnitOperationError", "F:raise:UnitOperationError",
    "F:get_conversion_factor", "F:dtype", "F:raise:InvalidUnitOperation",
-   "F:unit_operator", "W:func(out=out_func)", "W:np.multiply(out=out_func)", "F:Unit",
+   "F:unit_operator",
+   "F:raise:ValueError", "F:astype", "W:out.dtype", "W:copyto(out)",
+   "W:func(out=out_func)", "W:np.multiply(out=out_func)", "F:Unit",
    "F:raise:InvalidUnitOperation",
    "F:to", "W:ufunc(out=_out)", "F:raise:RuntimeError",
    "W:multiply(out=out_func)", "W:out.units", "F:Unit", "W:out.units"]
@@ -108,6 +113,8 @@ def ctuUnitsLast : Bool := true
 def ctuReadonlyGuard : Bool := true
 def outReadonlyGuard : Bool := true
 def simplifyCopies : Bool := true
+/-- fix C01-04 is in the source: an integer `out=` is re-typed only after the unit checks -/
+def promoteAfterChecks : Bool := true
 
 /-- every `out=` of an equivalence's `_convert` goes through `_get_out`, … -/
 def equivalenceOutExpr : String := "self._get_out(x)"
